@@ -33,7 +33,7 @@ func init() {
 		ID:   "C20",
 		Rule: "metamorphic triples built on one parsed tree: D = page with subtrees (div/section/ul, with paragraphs, list items, images) marked unlikely by class / id / ARIA role from the stated vocabulary (only markers that feed nothing but the unlikely test), placed at top / middle / bottom among content paragraphs; D_del = the same tree with those subtrees removed; D_neu = the same tree with the markers renamed to neutral values (class/id -> zone, role -> region). With W = Apply(D_del).WordCount: W >= 500 requires Apply(D) = Apply(D_del), W < 500 requires Apply(D) = Apply(D_neu), on Title, Text, serialised Node, WordCount, ContentImages. The amount of remaining content is steered by feedback (the last paragraph is resized until W hits each of 497..503 exactly) and otherwise drawn from [250,750]. Non-trivial = a triple where Apply(D_del) differs from Apply(D_neu) (otherwise either answer passes); distinct = distinct (W, marker kinds, placement).",
 		Assumptions: []string{
-			"not generated: a wrapper whose only content is a marked subtree (deleting vs skipping legitimately differs in block flushing), marked subtrees containing <h1>, metadata or CJK text",
+			"not generated: marked subtrees containing <h1>, <title> or metadata (the title and MarkupInfo are taken from the whole page, a stage of its own), CJK text",
 			"markers that other rules read as well (comment, author, sharing, social, header tags) are not used",
 		},
 		N: func(tier string) int {
@@ -154,6 +154,25 @@ func runC20(c *Ctx, idx int) {
 			return `<table summary="s"><tr><th>` + tc.tok() + `</th><th>` + tc.tok() + `</th></tr><tr><td>` + tc.tok() + ` <div role="` + role + `" data-mark="1">` + tc.toks(2+r.Intn(6)) + `</div></td><td>` + tc.tok() + `</td></tr><tr><td>` + tc.tok() + `</td><td>` + tc.tok() + `</td></tr></table>`
 		}
 	}
+	// ordinary elements whose treatment depends on what is below them (a byline by
+	// the length of its text, a wrapper by having content, a scripted link by having
+	// a single text child) with a marked subtree below them
+	around := func() string {
+		m := c20Markers[r.Intn(len(c20Markers))]
+		at := []string{`class="` + m + `"`, `id="` + m + `"`, `role="` + c20Roles[r.Intn(len(c20Roles))] + `"`}[r.Intn(3)]
+		switch r.Intn(3) {
+		case 0: // an author line with a "follow me" box inside
+			markerKinds = append(markerKinds, "in-byline")
+			return `<div class="byline">Written by ` + tc.toks(2) + `<div ` + at + ` data-mark="1">` + tc.toks(25+r.Intn(10)) + `</div></div>`
+		case 1: // a wrapper that holds nothing but the marked subtree, in the middle of a sentence
+			markerKinds = append(markerKinds, "in-wrapper")
+			w := []string{"div", "section", "header"}[r.Intn(3)]
+			return `<div>` + tc.toks(12) + ` <` + w + `><div ` + at + ` data-mark="1">` + tc.toks(4+r.Intn(5)) + `</div></` + w + `> ` + tc.toks(14) + `</div>`
+		default: // a scripted link whose tooltip is marked
+			markerKinds = append(markerKinds, "in-jslink")
+			return `<p>` + tc.toks(10) + ` <a href="javascript:void(0)">` + tc.toks(3) + `<span ` + at + ` data-mark="1">` + tc.toks(2) + `</span></a> ` + tc.toks(12) + `</p>`
+		}
+	}
 	// target amount of remaining content
 	target := 250 + r.Intn(501)
 	if idx%2 == 0 {
@@ -179,6 +198,9 @@ func runC20(c *Ctx, idx int) {
 		} else if r.Intn(10) == 0 && words > 0 {
 			parts = append(parts, inner())
 			placement += "inner,"
+		} else if r.Intn(12) == 0 && words > 0 {
+			parts = append(parts, around())
+			placement += "around,"
 		} else {
 			n := 10 + r.Intn(90)
 			if words+n > target-40 {
